@@ -510,6 +510,24 @@ def wrapped(base, pw_map=None, dlogs=None, name=None):
     return inst
 
 
+def alt_seed(base, seed, tag=b"'"):
+    """another seed for the same group whose published construction is well-defined and gives an element different from
+    the identity, the generator and the instance's current M, N, S (decided by the REFERENCE)"""
+    R = base.ref
+    avoid = {R.enc(base.rp.M), R.enc(base.rp.N), R.enc(base.rp.S), R.enc(R.base()), R.enc(R.identity)}
+    k = 0
+    while True:
+        cand = seed + tag + (str(k).encode() if k else b"")
+        k += 1
+        try:
+            e = R.arbitrary(cand)
+        except Degenerate:
+            continue
+        if R.enc(e) in avoid and k < 300:
+            continue
+        return cand
+
+
 def reseeded(base, M=None, N=None, S=None, name=None):
     """same group object, other seeds"""
     L = lib()
